@@ -58,7 +58,7 @@ def shrink_candidates(t, path=()):
             yield 1
 
 
-def shrink(mod, case, rounds=12, batch=300):
+def shrink(mod, case, rounds=8, batch=150):
     """greedy shrinking of a disagreeing case; keeps op and the clause of the disagreement"""
     clause = case["verdict"][1] if len(case["verdict"]) > 1 else None
     cur = case
